@@ -52,6 +52,13 @@ partial def jProg (j : Json) : Except String Comb := do
   | "many", 2 => pure (.many (← jProg a[1]!))
   | "textSeq", 3 => pure (.textSeq (← jNats a[1]!) (← a[2]!.getBool?))
   | "restOfChunk", 1 => pure .restOfChunk
+  | "optionLoop", 4 =>
+    let m ← match (← a[3]!.getStr?) with
+      | "skip" => pure OnFail.skip
+      | "breakAfterRaise" => pure OnFail.breakAfterRaise
+      | "relyOnRaise" => pure OnFail.relyOnRaise
+      | x => throw ("mode " ++ x)
+    pure (.optionLoop (← jNat a[1]!) (← jProg a[2]!) m)
   | "peekAt", 4 =>
     let g ← match (← a[3]!.getStr?) with
       | "strict" => pure Guard.strict
